@@ -186,7 +186,7 @@ CONFIG = {
         "destination errors are outside the property's quantifier (inputs = bytes, descriptors, reader behaviours, schedules) and outside the model (the destination never fails); ioutil.CopyBuffer is driven against a failing / short-writing io.Writer in the oracle only (never nil once bytes were lost); disk faults (ENOSPC, a failing Close) of oci.Storage / file.Store are not injected -- note: file.Store.saveFile records digestToPath before the deferred Close, which a Close error would leave behind (not observable by this check)",
         "store options and public wrappers: the model covers file.New defaults, oci.NewStorage, cas.Memory, LimitedStorage; oci.Store (oci.New), memory.Store, file.Store with DisableOverwrite / ForceCAS / IgnoreNoName / NewWithFallbackStorage are run by the oracle only (stream SX, incl. races on file and oci.Store); Store.IgnoreNoName discards unnamed pushes by documented option (Push may return nil for any content): there only 'nothing became visible' is judged; AllowPathTraversalOnWrite, SkipUnpack / the unpack annotation (pushDir) and manifest media types (restoreDuplicates, graph indexing) are not generated",
         "reader scripts: EOF is sticky (a reader that delivers data or an error after io.EOF is not expressible); several injected errors per script, 0-byte reads and data+EOF / data+error in one call are",
-        "concurrency: theorems for oci.Storage (C05_concurrent_same_digest, tied by outcome membership) and cas.Memory / LimitedStorage (C05_concurrent_memory, transition system not tied by correspondence); file.Store and oci.Store races (one digest under two names, one name twice, descriptors of one digest with different Size) are oracle only; 'at every instant' is observed by a polling goroutine (Fetch and a walk of blobs/), i.e. by sampling",
+        "concurrency: theorems for oci.Storage (C05_concurrent_same_digest, tied by outcome membership) and cas.Memory / LimitedStorage (C05_concurrent_memory, tied by outcome membership of 2-3 goroutine races as well); file.Store and oci.Store races (one digest under two names, one name twice, descriptors of one digest with different Size) are oracle only; 'at every instant' is observed by a polling goroutine (Fetch and a walk of blobs/), i.e. by sampling",
         "the in-Coq vm_compute re-evaluation of correspondence cases runs in the thorough tier only; go-digest's grammar / algorithm table is hand-modelled (not regenerated by the translator)",
     ],
     "level_text": "Coq theorems for every reader behaviour (arbitrary chunking, 0-byte reads, error at any offset, data with EOF), every descriptor and every digest function: ReadAll / any use of VerifyReader / CopyBuffer (any buffer size) succeed only with exactly the descriptor's bytes and an exhausted reader; malformed or unsupported digest, negative size, short reader, wrong first-Size bytes and trailing bytes are always errors; Push on memory, limited, OCI and file stores stores exactly those bytes or leaves Exists/Fetch/blobs unchanged; after any push history everything visible matches; any interleaving of concurrent OCI pushes keeps every blob verified; pre-fix negative-size acceptance kept as a refuted witness. Model tied to the code by differential runs (scripted readers x descriptors x push histories on the real stores, listing blobs/ and ingest/) and an independent SHA-2 oracle incl. goroutine races and the caching proxy",
